@@ -196,7 +196,9 @@ Inductive body :=
   | BWire (w : str)                    (* RETR/TOP: the bytes after the status line, terminated *)
   | BCapa                              (* capability list, terminated *)
   | BFail                              (* "+OK ..." followed by a lone "-ERR ..." line, no terminator *)
-  | BPanic.                            (* index out of range: the process dies *)
+  | BPanic                             (* index out of range: the process dies *)
+  | BRaw (w : str).                    (* never produced by the model: bytes after the status line
+                                          that have no structural reading (oracle input only) *)
 
 Record reply := { r_ok : bool; r_nums : list Z; r_id : option str; r_body : body }.
 
